@@ -163,6 +163,43 @@ def history_harness(ctx):
               note="a chain A->B, B->C stays a chain whatever the order of the two requests (uses of A go to B, uses of B go to C)")
 
 
+def out_edges_harness(ctx):
+    """_retarget_out_edges (loop over the block's concrete out-edges; E over edge type x direct x conditional x target x kind of the
+    new referent): exactly the Branch / Call edges whose target is the old symbol's referent are moved to the new symbol's referent,
+    label (type, conditional, DIRECT OR NOT) kept; every other edge untouched; a data referent is refused when an edge would move"""
+    ET = gtirb.EdgeType
+    ir, m = create_test_module(gtirb.Module.FileFormat.ELF, gtirb.Module.ISA.X64)
+    _, bi = add_text_section(m, address=0x1000)
+    src, a_blk, other, b_code, other2 = (add_code_block(bi, b"\x90") for _ in range(5))
+    _, dbi = add_data_section(m, address=0x4000)
+    b_data = add_data_block(dbi, b"\x00")
+    a_kind = ctx.choose(2, "old-referent")          # code block / proxy
+    a_ref = a_blk if a_kind == 0 else add_proxy_block(m)
+    b_kind = ctx.choose(3, "new-referent")          # code block / proxy / data block
+    b_ref = [b_code, add_proxy_block(m), b_data][b_kind]
+    A_, B_ = gtirb.Symbol("A", payload=a_ref, module=m), gtirb.Symbol("B", payload=b_ref, module=m)
+    etype = [ET.Branch, ET.Call, ET.Fallthrough, ET.Return][ctx.choose(4, "edge-type")]
+    direct = bool(ctx.choose(2, "direct"))
+    cond = bool(ctx.choose(2, "conditional"))
+    to_a = bool(ctx.choose(2, "edge-targets-the-old-referent"))
+    e1 = gtirb.Edge(src, a_ref if to_a else other, gtirb.EdgeLabel(etype, cond, direct))
+    e2 = gtirb.Edge(src, other2, gtirb.EdgeLabel(ET.Fallthrough, False, True))          # bystander
+    ir.cfg.add(e1)
+    ir.cfg.add(e2)
+    moves = to_a and etype in (ET.Branch, ET.Call)
+    try:
+        RT._retarget_out_edges(m, A_, B_, src)
+        raised = False
+    except AmbiguousIRError:
+        raised = True
+    now = sorted(((e.target, e.label.type, e.label.conditional, e.label.direct) for e in src.outgoing_edges), key=repr)
+    ctx.prove("retarget_out_edges/refused-iff-control-flow-would-lead-into-data", z3.BoolVal(raised == (moves and b_kind == 2)))
+    want_t = (b_ref if (moves and not raised) else (a_ref if to_a else other))
+    want = sorted([(want_t, etype, cond, direct), (other2, ET.Fallthrough, False, True)], key=repr)
+    ctx.prove("retarget_out_edges/exactly-the-branch-and-call-edges-to-the-old-referent-move-label-kept", z3.BoolVal(now == want),
+              note="direct and indirect edges alike: the operand named A, the edge led to A's referent")
+
+
 # ------------------------------------------------------------------------------------------------ bounded
 def build(a_internal, b_internal, b_is_data, with_functions):
     ir, m = create_test_module(gtirb.Module.FileFormat.ELF, gtirb.Module.ISA.X64)
@@ -338,6 +375,7 @@ def bounded(tier, seed):
 
 def jobs(tier="quick", seed=0):
     yield Job("C18/refusals", refusals_harness, kind="D", func="gtirb_rewriting.rewriting:RewritingContext.retarget_symbol_uses")
+    yield Job("C18/retarget_out_edges", out_edges_harness, kind="E", func="gtirb_rewriting._modify.retarget:_retarget_out_edges")
     yield Job("C18/request-history", history_harness, kind="E", func="gtirb_rewriting.rewriting:RewritingContext.retarget_symbol_uses")
     for name, abi, m in abi_modules():
         yield Job("C18/rules/%s" % name, rules_table_harness(name, abi, m), kind="E", func="gtirb_rewriting.abi:%s._sym_expr_rules" % type(abi).__name__)
